@@ -148,7 +148,7 @@ def run(rep, which, tier):
     admissible = {}
     for r in res:
         points += r['points']
-        stage = 'init' if r['istart'] == -1 else 'generate'
+        stage = {-1: 'init', 0: 'init+generate', 1: 'generate'}[r['istart']]
         if r['error']:
             raise AnalysisBroken('dispatch %s %s: %s' % (r['name'], stage, r['error']))
         for k, d in r['record']:
@@ -160,7 +160,7 @@ def run(rep, which, tier):
             unknown.add(r['name'])
     fn = D.fn
     for r in res:
-        stage = 'init' if r['istart'] == -1 else 'generate'
+        stage = {-1: 'init', 0: 'init+generate', 1: 'generate'}[r['istart']]
         if r['name'] in unknown:
             if stage == 'init':
                 no_reference.append(r['name'])
